@@ -26,7 +26,7 @@ pub fn case() { unsafe { CASES += 1; } }
 pub fn report(family: &str, what: &str, detail: String) {
     unsafe {
         MISMATCHES += 1;
-        if MISMATCHES <= 5 { println!("MISMATCH family={} case={} {}", family, what, detail); }
+        if MISMATCHES <= 24 { println!("MISMATCH family={} case={} {}", family, what, detail); }
     }
 }
 pub fn hex(b: &[u8]) -> String { b.iter().map(|x| format!("{:02x}", x)).collect() }
